@@ -206,9 +206,9 @@ Proof. split; lra. Qed.
     constructors, [gen_slip] the three expressions of DriftMap's `slip` argument, inlined down to the options
     [L O_<getter>] and constants).  For every field, every interpretation [O] of comparisons/sqrt/..., every option
     values [L]; a hypothesis such as [o_lt O 0 (L O_getStepsPerTrev) = false] says which branch of main() is taken. *)
-From Inovesa Require Model.ScalingOps Gen.Gen_Scaling Proofs.ScalingAngleP.
+From Inovesa Require Model.ScalingOps Gen.Gen_Scaling Proofs.ScalingAngleP Gen.Gen_Ruler Proofs.RulerGenP.
 Module ScalingFamily.   (* imports and scopes stay local to this block *)
-Import ScalingOps Gen_Scaling ScalingAngleP.
+Import ScalingOps Gen_Scaling ScalingAngleP Gen_Ruler RulerGenP.
 Local Open Scope F_scope.
 
 (** angle = 2 pi / StepsPerTs (StepsPerRevolution not positive, StepsPerTs >= 1): the statement of the property in terms
@@ -251,6 +251,26 @@ Theorem C03_main_drift_is_linear :
     gen_angle K O L B * (fz y - ruler_zerobin n mn mx).
 Proof. exact main_drift_is_linear. Qed.
 Print Assumptions C03_main_drift_is_linear.
+
+(** the Ruler of Model/RF.v (sections 1, 2) is the constructor of Ruler<meshaxis_t> as read from inc/PS/Ruler.hpp on every
+    run (Gen/Gen_Ruler.v, translate/ruler2coq.py: mem-initialisers of _delta and _zerobin, coordinate loop), and the zero-bin
+    statement holds for the generated expressions themselves *)
+Theorem C03_ruler_is_source :
+  forall (K : Fld) (steps : Z) (mn mx delta : K) (i : Z),
+    fz (K:=K) (steps - 1) <> 0 ->
+    gen_ruler_delta K (fz steps) mn mx = ruler_delta steps mn mx /\
+    gen_ruler_zerobin K (fz steps) mn mx = ruler_zerobin steps mn mx /\
+    gen_ruler_at K mn delta (fz i) = ruler_at mn delta i.
+Proof. exact gen_ruler_is_model. Qed.
+Print Assumptions C03_ruler_is_source.
+
+Theorem C03_zerobin_correct_source :
+  forall (K : Fld) (steps : Z) (mn mx : K),
+    mn <> mx -> fz (K:=K) (steps - 1) <> 0 ->
+    gen_ruler_zerobin K (fz steps) mn mx = - mn / gen_ruler_delta K (fz steps) mn mx /\
+    gen_ruler_at K mn (gen_ruler_delta K (fz steps) mn mx) (gen_ruler_zerobin K (fz steps) mn mx) = 0.
+Proof. exact gen_zerobin_correct. Qed.
+Print Assumptions C03_zerobin_correct_source.
 
 (** non-vacuity over Qc: StepsPerTs = 50, two_pi := 44/7 -> angle = 22/175; every other option 1 *)
 Example C03_main_angle_example :
